@@ -316,7 +316,7 @@ func HarnessC03Hist() {
 // queries on one caching index, each compared with its own denotation.
 func HarnessC03Names() {
 	odd := `a "a0") (EQUAL b` // AND(odd="b0") prints like AND(a="a0", b="b0")
-	d := verifNewData("c03n.updog", []string{"a", "b", odd}, [][]string{{"a0"}, {"b0"}, {"b0"}})
+	d := verifNewData("c03n.updog", []string{"a", "b", odd}, [][]string{{"a0", "b\x00c"}, {"b0"}, {"b0"}})
 	d.build()
 	sa, sb, so := d.sets[0][0], d.sets[1][0], d.sets[2][0]
 	mask := verifMask(d.n)
@@ -338,6 +338,12 @@ func HarnessC03Names() {
 		{&ExprOr{Exprs: []Expression{eq("a", "a0"), eq("nosuch", "x")}}, 0, true},
 		{&ExprAnd{Exprs: []Expression{eq("a", "a0"), eq("nosuch", "x")}}, 0, true},
 		{&ExprNot{Expr: &ExprOr{Exprs: []Expression{eq("b", "b0"), eq("nosuch", "x")}}}, 0, true},
+		// a stored value containing the separator byte, and a comparison against a column that
+		// does not exist whose name and value concatenate to the same bytes: the second one is an
+		// error whatever the cache holds
+		{eq("a", "b\x00c"), d.sets[0][1], false},
+		{eq("a\x00b", "c"), 0, true},
+		{&ExprOr{Exprs: []Expression{eq("a\x00b", "c"), eq("a", "a0")}}, 0, true},
 	}
 	var cache Cache = NewLRUCache(^uint64(0))
 	if verifBool("keep-cache") {
